@@ -105,6 +105,10 @@ def c_auth(a):
     return hs(a.type) + "|" + c_pairs_opt(list(a.parameters.items())) + "|" + opt(hs, a.token)
 
 
+def dec_opt(x):
+    return None if x is None or x == "~" else unhs(x)
+
+
 def exc(f):
     try:
         return f()
@@ -419,7 +423,7 @@ class CodecPairs(Stream):
         if codec in ("auth", "www"):
             cls = ds.Authorization if codec == "auth" else ds.WWWAuthenticate
             ps = {unhs(k): (None if v == "~" else unhs(v)) for k, v in case["params"]}
-            tok = None if case["token"] == "~" or case["token"] is None else unhs(case["token"])
+            tok = dec_opt(case["token"])
             a = cls(unhs(case["type"]), ps, tok)
             w = a.to_header()
             p = exc(lambda: cls.from_header(w))
@@ -495,6 +499,8 @@ class CodecPairs(Stream):
         if codec == "etags":
             et = self.mk_etags(case)  # the header lists the two frozensets in their iteration order
             return line("pair.etags", out_list(hs(x) for x in et._strong), out_list(hs(x) for x in et._weak), b01(case["star"]))
+        if codec == "range" and any(ord(c) > 0xFF for c in unhs(case["units"])):
+            return None  # str.lower() above U+00FF is outside the model
         if codec == "range":
             return line("pair.range", case["units"], out_list(f"{b}:{opt(str, e)}" for b, e in case["ranges"]))
         if codec == "crange":
@@ -511,11 +517,13 @@ class CodecPairs(Stream):
             return line("pair.csp", out_list(k + ":" + v for k, v in case["d"]))
         if codec in ("auth", "www"):
             ty = case["type"]
+            if any(ord(c) > 0xFF for c in unhs(ty)):
+                return None  # str.lower()/title() above U+00FF are outside the model
             if codec == "www":
                 ty = hs(unhs(ty).lower())  # WWWAuthenticate.__init__ lower-cases the type
                 if unhs(ty) != unhs(case["type"]).lower() or any(ord(c) > 0xFF for c in unhs(case["type"])):
                     return None
-            return line("pair." + codec, ty, out_list(k + ":" + v for k, v in case["params"]), "~" if case["token"] is None else case["token"])
+            return line("pair." + codec, ty, out_list(k + ":" + v for k, v in case["params"]), opt(hs, dec_opt(case["token"])))
         if codec == "date":
             return line("pair.date", case["t"])
         if codec == "dateaware":
@@ -603,11 +611,11 @@ class CodecPairs(Stream):
                 return False
             if t == "basic" and codec == "auth":
                 ps = dict((unhs(k), v) for k, v in case["params"])
-                if set(ps) != {"username", "password"} or "~" in ps.values() or case["token"] is not None:
+                if set(ps) != {"username", "password"} or "~" in ps.values() or dec_opt(case["token"]) is not None:
                     return False
                 return ":" not in unhs(ps["username"])
-            if case["token"] is not None:
-                tok = unhs(case["token"])
+            if dec_opt(case["token"]) is not None:
+                tok = dec_opt(case["token"])
                 return not case["params"] and "=" not in tok.rstrip("=") and tok == tok.strip() and no_crlf(tok)
             if not case["params"]:
                 return False
@@ -700,7 +708,7 @@ class CodecPairs(Stream):
             return None if list(p.items()) == exp else repr(p)
         if codec in ("auth", "www"):
             ps = {unhs(k): (None if v == "~" else unhs(v)) for k, v in case["params"]}
-            tok = None if case["token"] is None else unhs(case["token"])
+            tok = dec_opt(case["token"])
             ok = p is not None and p.type == unhs(case["type"]) and dict(p.parameters) == ps and p.token == tok
             return None if ok else repr(p)
         if codec == "date":
